@@ -61,38 +61,38 @@ End AttDefs.
 (* ---------------------------------------------------------------- the clauses of a re-encoding *)
 (* the auxiliary variable of the (arg_var, attacker_var) iteration of an inner loop whose first
    auxiliary variable is base + 1 *)
-Definition aux_var (base n a b : nat) : nat := base + (a - 1) * n + b.
+Definition att_aux (base n a b : nat) : nat := base + (a - 1) * n + b.
 
 (* update_encoding_for_stable_semantics, n slots: for every slot a, for every slot b
      aux <-> (b /\ att(a,b));   att(a,b) -> ~a \/ ~b;        then   a \/ aux(a,1) \/ ... \/ aux(a,n) *)
 Definition st_cell (n base a b : nat) : cnf :=
-  let aux := zlit (aux_var base n a b) in
+  let aux := zlit (att_aux base n a b) in
   let bl := zlit b in
   let al := att_lit n a b in
   [[negate aux; bl]; [negate aux; al]; [aux; negate bl; negate al]; [negate al; znlit a; negate bl]].
 Definition st_row (n base a : nat) : cnf :=
-  flat_map (st_cell n base a) (seq 1 n) ++ [zlit a :: map (fun b => zlit (aux_var base n a b)) (seq 1 n)].
+  flat_map (st_cell n base a) (seq 1 n) ++ [zlit a :: map (fun b => zlit (att_aux base n a b)) (seq 1 n)].
 Definition att_st_cnf (n : nat) : cnf := flat_map (st_row n (n * (1 + n))) (seq 1 n).
 
 (* update_encoding_for_complete_semantics, first loop: a -> ~d(a); for every b
      aux <-> (~d(b) /\ att(a,b));   att(a,b) -> ~a \/ d(b);   then   a \/ aux(a,1) \/ ... *)
 Definition co_cell1 (n base a b : nat) : cnf :=
-  let aux := zlit (aux_var base n a b) in
+  let aux := zlit (att_aux base n a b) in
   let bd := disj_of n b in
   let al := att_lit n a b in
   [[negate aux; negate bd]; [negate aux; al]; [aux; bd; negate al]; [negate al; znlit a; bd]].
 Definition co_row1 (n base a : nat) : cnf :=
   [znlit a; negate (disj_of n a)] ::
-  flat_map (co_cell1 n base a) (seq 1 n) ++ [zlit a :: map (fun b => zlit (aux_var base n a b)) (seq 1 n)].
+  flat_map (co_cell1 n base a) (seq 1 n) ++ [zlit a :: map (fun b => zlit (att_aux base n a b)) (seq 1 n)].
 (* second loop: aux <-> (b /\ att(a,b));   att(a,b) -> d(a) \/ ~b;   then  ~d(a) \/ aux(a,1) \/ ... *)
 Definition co_cell2 (n base a b : nat) : cnf :=
-  let aux := zlit (aux_var base n a b) in
+  let aux := zlit (att_aux base n a b) in
   let bl := zlit b in
   let al := att_lit n a b in
   [[negate aux; bl]; [negate aux; al]; [aux; negate bl; negate al]; [negate al; disj_of n a; negate bl]].
 Definition co_row2 (n base a : nat) : cnf :=
   flat_map (co_cell2 n base a) (seq 1 n)
-  ++ [negate (disj_of n a) :: map (fun b => zlit (aux_var base n a b)) (seq 1 n)].
+  ++ [negate (disj_of n a) :: map (fun b => zlit (att_aux base n a b)) (seq 1 n)].
 Definition att_co_cnf (n : nat) : cnf :=
   flat_map (co_row1 n (n * (2 + n))) (seq 1 n) ++ flat_map (co_row2 n (n * (2 + n) + n * n)) (seq 1 n).
 
